@@ -76,7 +76,30 @@ def hand_assembled(rng):
   A, K, I = daglish.Attr, daglish.Key, daglish.Index
   inner = fdl.Config(l2.Ka, p=1, q=[1, 2])
   old = fdl.Config(l2.fd, x=inner, y=[inner, {"k": fdl.Config(l2.fa, 7)}], z=3)
-  v = rng.randint(0, 4)
+  v = rng.randint(0, 6)
+  if v == 5:
+    # a chain of new shared values, each holding the next; the callables (hence the variable names
+    # shared_<callable>) are drawn at random, so the names sort against the dependency order in some draws
+    fns = rng.sample([l2.fa, l2.fd, l2.fg, l2.Ka, l2.Kb, l2.Kc], rng.randint(3, 4))
+    first = {l2.fa: "a", l2.fd: "x", l2.fg: "u", l2.Ka: "p", l2.Kb: "p", l2.Kc: "p"}
+    n = len(fns)
+    shared = tuple(fdl.Config(fns[i], **({first[fns[i]]: Ref("new_shared_values", (I(i + 1),))} if i + 1 < n
+                                         else {first[fns[i]]: 7})) for i in range(n))
+    changes = (diffing.SetValue((A("w"),), [Ref("new_shared_values", (I(0),)), Ref("new_shared_values", (I(0),))]),
+               diffing.ModifyValue((A("z"),), Ref("new_shared_values", (I(n - 1),))))
+    return old, diffing.Diff(changes, shared), f"hand#{v}"
+  if v == 6:
+    # one object of old reachable by two paths: a part of it is replaced through one path and referred to
+    # through the other, under a parent that is handled later
+    s_obj = fdl.Config(l2.Ka, p=1, q=[1, 2])
+    names = rng.sample(["a", "b", "c", "d", "e"], 3)
+    one, two, late = sorted(names[:2]) + [max(names) + "z"]
+    if rng.random() < 0.5:
+      one, two = two, one
+    old2 = fdl.Config(l2.fd, **{one: s_obj, two: s_obj, late: fdl.Config(l2.fa, 7)})
+    changes = (diffing.ModifyValue((A(one), A("q")), [9]),
+               diffing.SetValue((A(late), A("b")), Ref("old", (A(two), A("q")))))
+    return old2, diffing.Diff(changes, ()), f"hand#{v}"
   if v == 0:
     # shared values referring to one another; names sort against the dependency order
     shared = (fdl.Config(l2.Kb, p=5),
@@ -327,7 +350,7 @@ def run(tier: str, seed: int) -> Result:
   rng = random.Random(seed * 393342743 + 13)
   res = Result()
   res.rule = ("diffs produced by build_diff over the pair generator of C10 (labelled rewrites, tuple rewrites, "
-              "unrelated pairs) plus 5 families of hand-assembled diffs (new shared values referring to one another, "
+              "unrelated pairs) plus 7 families of hand-assembled diffs and nested-shared pairs (new shared values referring to one another, "
               "references into moved or replaced parts of old, callable change with deletes and sets on one parent, "
               "tags with value changes) x {explicit, short} naming x {old supplied, not supplied}; the emitted "
               "fiddler is compiled and run on a copy of old and compared with apply_diff; non-trivial = non-empty diff")
@@ -341,8 +364,23 @@ def run(tier: str, seed: int) -> Result:
   n = 250 if tier == "quick" else 6000
   try:
     for i in range(n):
-      if rng.random() < 0.12:
+      r0 = rng.random()
+      if r0 < 0.2:
         old, diff, kind = hand_assembled(rng)
+      elif r0 < 0.3:
+        # new holds a chain of sub-configurations, each referenced twice (all become new shared values)
+        fns = rng.sample([l2.fa, l2.fd, l2.fg, l2.Ka, l2.Kb, l2.Kc], rng.randint(3, 4))
+        first = {l2.fa: "a", l2.fd: "x", l2.fg: "u", l2.Ka: "p", l2.Kb: "p", l2.Kc: "p"}
+        inner = 7
+        for fn in reversed(fns):
+          node = fdl.Config(fn, **{first[fn]: inner})
+          inner = [node, node]
+        old, new, kind = fdl.Config(l2.fd, x=1), fdl.Config(l2.fd, x=inner), "nested-shared"
+        try:
+          diff = diffing.build_diff(old, new)
+        except Exception as e:  # pylint: disable=broad-except
+          res.count("build_diff-raised:" + type(e).__name__)
+          continue
       else:
         old, new, kind = c10.gen_pair(rng)
         if "shares-identity" in kind:
